@@ -115,7 +115,7 @@ def _raw_hugr(spec):
 def _gen_built(rng):
     return {
         "kind": "built", "seed": rng.randrange(10**6), "size": rng.randint(1, 4),
-        "muts": [[rng.choice(["node", "order", "delnode", "insert", "meta"]), rng.randrange(10**6)] for _ in range(rng.randint(0, 5))],
+        "muts": [[rng.choice(["node", "order", "delnode", "insert", "meta", "reqs", "polycall"]), rng.randrange(10**6)] for _ in range(rng.randint(0, 5))],
     }
 
 
@@ -156,7 +156,41 @@ def _built_hugr(spec):
         elif kind == "meta":
             n = rng.choice(nodes)
             h[n].metadata["verif"] = copy.deepcopy(rng.choice(METAS[2:]))
+        elif kind == "reqs" and containers:
+            # operation attributes: extension deltas in any order, with repetitions
+            reqs = [rng.choice(["tket2.quantum", "prelude", "my.ext", "arithmetic.int", "é.x"]) for _ in range(rng.randint(2, 4))]
+            p = rng.choice(containers)
+            sig = tys.FunctionType([tys.Bool], [tys.Bool, tys.FunctionType([], [tys.Qubit], list(reversed(reqs)))], reqs)
+            extra.append(h.add_node(ops.Custom(f"reqs{sd}", signature=sig, extension="verif", args=[tys.TypeTypeArg(sig)]), p))
+        elif kind == "polycall":
+            _add_polycall(h, rng)
     return h
+
+
+def _add_polycall(h, rng):
+    """A call of a function that is polymorphic over a ROW variable, instantiated at a row of another
+    length, with state order edges on the call in both directions (module-rooted HUGRs only)."""
+    from hugr import ops, tys
+    from hugr.build.dfg import Function
+
+    if not isinstance(h[h.root].op, ops.Module):
+        return
+    cop = tys.TypeBound.Copyable
+    row = tys.RowVariable(0, cop)
+    sig = tys.PolyFuncType([tys.ListParam(tys.TypeTypeParam(cop))], tys.FunctionType([row], [row]))
+    f = h.add_node(ops.FuncDecl(f"poly{rng.randrange(1000)}", sig), h.root)
+    n = rng.choice([0, 2, 3])
+    inst_row = [rng.choice([tys.Bool, tys.Unit, tys.USize()]) for _ in range(n)]
+    fn = Function.new_nested(ops.FuncDefn(f"caller{rng.randrange(1000)}", list(inst_row), []), h, h.root)
+    pre = fn.add_op(ops.Custom("pre", signature=tys.FunctionType([], []), extension="verif"))
+    call = fn.call(
+        f, *fn.inputs(), instantiation=tys.FunctionType(list(inst_row), list(inst_row)),
+        type_args=[tys.SequenceArg([tys.TypeTypeArg(t) for t in inst_row])],
+    )
+    post = fn.add_op(ops.Custom("post", signature=tys.FunctionType([], []), extension="verif"))
+    fn.add_state_order(pre, call)
+    fn.add_state_order(call, post)
+    fn.set_outputs(*[call[i] for i in range(n)])
 
 
 def build(spec):
